@@ -226,7 +226,7 @@ def main():
                     print(f"KNOWN-FINDING: property={prop} bounded {wid} — {kf['text']}")
                     known_bounded.append(kf)
                     continue
-                wsc = dict(kind="corpusfile", file=f["file"], opts=f["opts"], column_width=f["column_width"], fkind=f["kind"])
+                wsc = dict(kind="corpusfile", file=(None if f["kind"] == "timeout" else f["file"]), opts=f["opts"], column_width=f["column_width"], fkind=f["kind"])
                 violations.append(dict(unit="cli", fs="-", label="bounded:" + wid, text="bounded corpus sweep (stand-in for formatters outside every contract)",
                                        diag=dict(message=f["detail"], fn="stylua_lib::format_code", rendered=json.dumps(f)[:3000]), res=None, scenario=wsc, scenario_result=f))
         for wsc in bl:
